@@ -13,6 +13,8 @@ from __future__ import annotations
 
 import asyncio
 import logging
+import threading
+import time
 
 import duet
 import numpy as np
@@ -31,7 +33,8 @@ RULE = (
     "with drawn per-job bit tables; non-trivial = >=3 jobs, >=2 terms, out-of-order completion. stream: submit / process / "
     "respond / deliver / inject fatal code / break(before|after the server processed a request, retryable|not, requests "
     "stranded on the dead stream processed 0-3 steps later or never) / chase(answer one job n times in a row) / late "
-    "processing / cancel / stop / yield against the model engine, 1-5 programs shared by up to 5 jobs, optional "
+    "processing / cancel / stop / yield / compound steps executed in ONE loop callback without a yield (cancel(job)+break, "
+    "server answer+cancel(job), stop()+break, both orders each) against the model engine, 1-5 programs shared by up to 5 jobs, optional "
     "pre-existing programs, both server conventions for 'program and job both exist', direct StreamManager.submit or "
     "EngineClient.run_job_over_stream; non-trivial = >=2 jobs in flight together and >=1 retryable break that lands between "
     "a request's processing and its response. demux: subscribe/publish/publish_exception/cancel against a dict model. "
@@ -54,6 +57,10 @@ ASSUMPTIONS = [
     "retryable stream failures are exactly InternalServerError, ServiceUnavailable, Unknown (module constant and property "
     "statement); every other GoogleAPICallError and every StreamError code other than the four exists/does-not-exist "
     "codes must surface to the caller",
+    "a future cancelled by the caller OR by stop() while its job was in flight must produce exactly one "
+    "cancel_quantum_job(name) (coordinator's reading of 'cancellation cancels the remote job'; stop() documents only the "
+    "CancelledError); stop()+break compound steps read the private field StreamManager._manage_stream_loop_future to know "
+    "when stop() has published to every waiter while the harness holds the loop",
     "max_total_samples is read the way the property statement words it ('starts no job once the sample budget is used up'): "
     "no job starts once the repetitions already started reach it; the last job may overshoot the limit (label "
     "budget_overshoot) although the docstring calls it a 'limit on the maximum number of samples to collect'",
@@ -77,6 +84,8 @@ SENSITIVITY = [
     "demux publish does not unsubscribe",
     "processor sampler releases the concurrency slot before results arrive",
     "processor sampler splits batch results by jobs_per_batch instead of batch size",
+    "stream remote cancel only when the response future itself was cancelled (seeded C20/2)",
+    "stream remote cancel skipped when a break or response resolved the waiter in the same loop pass",
 ]
 
 logging.getLogger("asyncio").setLevel(logging.CRITICAL)
@@ -667,6 +676,7 @@ class _SJob:
         self.exc_type = None
         self.cause = ""
         self.by_cancel = False
+        self.by_stop = False
         self.cancelled_after_retry = False
 
 
@@ -705,7 +715,8 @@ def oracle_stream(r):
     seen_requests = 0
     lab = {"breaks_retryable": 0, "breaks_fatal": 0, "break_between": False, "retry_break_between": False, "peak_inflight": 0,
            "codes": set(), "orphans": 0, "cancel_inflight": 0, "cancel_after_retry": False, "stops_inflight": 0,
-           "submit_after_stop": False, "injected": 0, "steps": 0, "stale_create_after_orphan": False}
+           "submit_after_stop": False, "injected": 0, "steps": 0, "cancel_with_break": False, "cancel_with_response": False,
+           "stop_with_break": False}
     stopped_once = False
     late = []  # [due_step, request record]: stranded create requests the server still processes later
 
@@ -832,8 +843,9 @@ def oracle_stream(r):
             if n > 1:
                 raise Violation(f"after {what}: cancel_quantum_job sent {n} times for job {j.k}")
         for j in jobs:
-            if j.by_cancel and fake.cancel_calls.count(j.name) != 1:
-                raise Violation(f"after {what}: future of job {j.k} was cancelled but cancel_quantum_job({j.name!r}) "
+            if (j.by_cancel or j.by_stop) and fake.cancel_calls.count(j.name) != 1:
+                why = "was cancelled by the caller" if j.by_cancel else "was cancelled by stop() while the job was in flight"
+                raise Violation(f"after {what}: future of job {j.k} {why} but cancel_quantum_job({j.name!r}) "
                                 f"was sent {fake.cancel_calls.count(j.name)} times")
         lab["peak_inflight"] = max(lab["peak_inflight"], len(inflight()))
 
@@ -898,18 +910,31 @@ def oracle_stream(r):
             lab["injected"] += 1
             _in_loop(f)
             return f"inject({code} for {rec.kind})"
-        if kind == "break":
+        if kind in ("break", "cancel_break", "stop_break"):
+            # break: the stream fails on its own step.  cancel_break: the caller's cancel() of job k and the stream
+            # failure reach the loop in ONE callback, no yield in between (order drawn).  stop_break: stop() and the
+            # failure, ditto (the loop is held until stop() has published to every waiter).
             if fake.current_stream() is None:
                 return None
+            victim = None
+            order = 0
+            if kind == "cancel_break":
+                victim, order, a = pick(inflight(), a[0]), int(a[1]) % 2, a[2:] + [0, 0]
+                if victim is None:
+                    return None
+            elif kind == "stop_break":
+                order, a = int(a[0]) % 2, a[1:] + [0]
+                if not inflight():
+                    return None
             retry = bool(a[1])
             name = _RETRYABLE[int(a[2]) % 3] if retry else _FATAL_BREAKS[int(a[2]) % len(_FATAL_BREAKS)]
             exc = _break_exception(name)
             after = str(a[0]) == "after" or a[0] == 1
             target = pick([q for q in live if not q.processed], a[3] if len(a) > 3 else 0) if after else None
-
             delay = int(a[4]) if len(a) > 4 else 0
+            helper = []
 
-            def f():
+            def brk():
                 if target is not None:
                     fake.process(target)
                 mine = fake.live_unresponded()
@@ -919,18 +944,85 @@ def oracle_stream(r):
                     late.extend((lab["steps"] + delay, q) for q in mine if not q.processed and q.kind != EM.GR)
                 return between
 
+            def stop_held():
+                """Run stop() on a helper thread while this callback holds the loop, until stop() has published its
+                CancelledError to every waiter (first statement of _reset clears the stream future)."""
+                t = threading.Thread(target=manager.stop, daemon=True)
+                helper.append(t)
+                t.start()
+                for _ in range(400000):
+                    if manager._manage_stream_loop_future is None:
+                        return
+                    time.sleep(0.00005)
+                raise RuntimeError("stop() did not reach _reset() while the loop was held")
+
+            def f():
+                second = victim.fut.cancel if victim is not None else (stop_held if kind == "stop_break" else None)
+                if second is not None and order == 1:
+                    second()
+                between = brk()
+                if second is not None and order == 0:
+                    second()
+                return between
+
             hit = list(inflight())
-            if not retry:
+            if victim is not None:
+                victim.status, victim.by_cancel = "cancelled", True
+                victim.cause = f"its future was cancelled by the caller in the same loop pass as a stream break ({name})"
+                lab["cancel_inflight"] += 1
+                lab["cancel_with_break"] = True
+                if any(q.job == victim.name and q.kind != EM.CPJ for q in fake.requests):
+                    lab["cancel_after_retry"] = True
+            if kind == "stop_break":
                 for j in hit:
-                    j.status, j.exc_type, j.cause = "exc", type(exc), f"the stream broke with non-retryable {name}"
+                    j.status, j.by_stop, j.cause = "cancelled", True, f"the manager was stopped in the same loop pass as a stream break ({name})"
+                lab["stops_inflight"] += 1
+                lab["stop_with_break"] = True
+                stopped_once = True
+            elif not retry:
+                for j in hit:
+                    if j is not victim:
+                        j.status, j.exc_type, j.cause = "exc", type(exc), f"the stream broke with non-retryable {name}"
             between = _in_loop(f)
+            for t in helper:
+                t.join(_SAFETY_S)
+                if t.is_alive():
+                    raise RuntimeError("stop() never returned")
+            if helper:
+                _in_loop()
             if hit:
                 lab["breaks_retryable" if retry else "breaks_fatal"] += 1
                 if between:
                     lab["break_between"] = True
                     if retry:
                         lab["retry_break_between"] = True
-            return f"break({name}, {'after' if target is not None else 'before'} processing)"
+            pos = f"{'after' if target is not None else 'before'} processing"
+            if victim is not None:
+                return f"{'cancel(job %d)+break' % victim.k if order else 'break+cancel(job %d)' % victim.k}({name}, {pos}) in one loop pass"
+            if kind == "stop_break":
+                return f"{'stop()+break' if order else 'break+stop()'}({name}, {pos}) in one loop pass"
+            return f"break({name}, {pos})"
+        if kind == "cancel_deliver":  # the server's answer for job k and the caller's cancel() of job k in ONE callback
+            j = pick(inflight(), a[0])
+            rec = next((q for q in live if j is not None and q.job == j.name), None)
+            if rec is None:
+                return None
+            order = int(a[1]) % 2
+            j.status, j.by_cancel = "cancelled", True
+            j.cause = "its future was cancelled by the caller in the same loop pass as the server's answer"
+            lab["cancel_inflight"] += 1
+            lab["cancel_with_response"] = True
+
+            def f():
+                if order:
+                    j.fut.cancel()
+                do_deliver(rec)
+                if not order:
+                    j.fut.cancel()
+
+            _in_loop(f)
+            ans = f"{rec.kind} -> {rec.reply[0]}{':' + rec.reply[1] if rec.reply[0] == 'error' else ''}"
+            return f"{'cancel(job %d)+deliver' % j.k if order else 'deliver+cancel(job %d)' % j.k}({ans}) in one loop pass"
         if kind == "orphan":
             rec = pick([q for q in fake.requests if q.dead and not q.processed and q.kind != EM.GR
                         and q.job in byname and byname[q.job].status == "inflight"], a[0])
@@ -954,7 +1046,7 @@ def oracle_stream(r):
         if kind == "stop":
             hit = inflight()
             for j in hit:
-                j.status, j.cause = "cancelled", "the manager was stopped"
+                j.status, j.by_stop, j.cause = "cancelled", True, "the manager was stopped"
             if hit:
                 lab["stops_inflight"] += 1
             manager.stop()
@@ -1037,7 +1129,8 @@ def oracle_stream(r):
         "jobs": len(jobs), "concurrent2": lab["peak_inflight"] >= 2, "breaks_retryable": min(lab["breaks_retryable"], 3),
         "fatal_break": lab["breaks_fatal"] > 0, "break_between": lab["break_between"], "retry_break_between": lab["retry_break_between"],
         "orphan_processed": lab["orphans"] > 0, "cancel_inflight": lab["cancel_inflight"] > 0, "cancel_after_retry": lab["cancel_after_retry"],
-        "stop_inflight": lab["stops_inflight"] > 0, "submit_after_stop": lab["submit_after_stop"], "injected_code": lab["injected"] > 0,
+        "cancel_with_break": lab["cancel_with_break"], "cancel_with_response": lab["cancel_with_response"],
+        "stop_with_break": lab["stop_with_break"], "stop_inflight": lab["stops_inflight"] > 0, "submit_after_stop": lab["submit_after_stop"], "injected_code": lab["injected"] > 0,
         "via_client": via_client, "streams": min(len(fake.streams), 5), "results": sum(j.status == "result" for j in jobs),
         "failed_jobs": sum(j.status == "job" for j in jobs) > 0,
     }
@@ -1068,6 +1161,9 @@ _stream_action = st.one_of(
     _act("break", st.sampled_from(["after", "before"]), st.sampled_from([1, 0, 0]), st.integers(0, 13), _idx, _delay),
     _act("orphan", _idx),
     _act("cancel", _idx),
+    _act("cancel_break", _idx, st.integers(0, 1), st.sampled_from(["after", "before"]), st.sampled_from([1, 1, 1, 0]), st.integers(0, 13), _idx, _delay),
+    _act("cancel_deliver", _idx, st.integers(0, 1)),
+    _act("stop_break", st.integers(0, 1), st.sampled_from(["after", "before"]), st.sampled_from([1, 1, 0]), st.integers(0, 13), _idx, _delay),
     _act("inject", _idx, st.integers(0, 5)),
     _act("stop"),
     _act("yield"),
